@@ -18,6 +18,7 @@
 //!              in-process `kvarn::handle_cache`: mode 0 = one fresh host, the requests in order; mode 1 = a fresh host each
 //! proto.pair   (L checked cfg pkg alt err416 exchanges secure1) -> (L (L wire_h1 wire_h2) ...)
 //!              the history on host A over one HTTP/1.1 connection, on an identical host B over one HTTP/2 connection
+//! proto.answered same input -> (L h1 h2): was every request of the history answered (and the framing intact) on each protocol
 //! proto.burst  (L checked cfg pkg alt err416 exchanges streams sched) -> (L (L sid wire) ...)
 //!              all requests at once as streams of ONE HTTP/2 connection, one fresh host
 //! proto.burst1 the same burst over as many concurrent HTTP/1.1 (TLS) connections
@@ -545,7 +546,27 @@ fn parse_case(x: &X, n: usize) -> Option<Case> {
     Some(Case { cfg: c[0].clone(), reqs: parse_reqs(&c[1])? })
 }
 
-fn pair(x: &X) -> X {
+async fn history_h1(desc: Arc<PortDescriptor>, secure: bool, reqs: &[Req]) -> Result<Vec<Wire>, (usize, String)> {
+    let mut h1 = H1::open(desc, secure).await.map_err(|e| (0, format!("h1 open: {e}")))?;
+    let mut out = Vec::new();
+    for (i, r) in reqs.iter().enumerate() {
+        out.push(h1.exchange(&resolve(r)).await.map_err(|e| (i, format!("h1: {e}")))?);
+    }
+    h1.sentinel().await.map_err(|e| (reqs.len(), format!("h1 framing: {e}")))?;
+    Ok(out)
+}
+async fn history_h2(desc: Arc<PortDescriptor>, reqs: &[Req]) -> Result<Vec<Wire>, (usize, String)> {
+    let mut h2 = H2::open(desc).await.map_err(|e| (0, format!("h2 open: {e}")))?;
+    let mut out = Vec::new();
+    for (i, r) in reqs.iter().enumerate() {
+        out.push(h2.exchange(&resolve(r)).await.map_err(|e| (i, format!("h2: {e}")))?);
+    }
+    h2.sentinel().await.map_err(|e| (reqs.len(), format!("h2 framing: {e}")))?;
+    Ok(out)
+}
+
+/// `flags`: only report whether every request of the history was answered on each protocol
+fn pair(x: &X, flags: bool) -> X {
     let Some(case) = parse_case(x, 7) else { return X::bad() };
     let Some(secure1) = x.as_l().and_then(|l| l[6].as_bool()) else { return X::bad() };
     if !case.reqs.iter().all(expressible) {
@@ -555,35 +576,19 @@ fn pair(x: &X) -> X {
     let (da, db) = (descriptor(&ba, secure1), descriptor(&bb, true));
     let reqs = case.reqs;
     let out = rt().block_on(async move {
-        let mut h1 = match H1::open(da, secure1).await {
-            Ok(c) => c,
-            Err(e) => return fail(0, format!("h1 open: {e}")),
+        let w1 = history_h1(da, secure1, &reqs).await;
+        if flags {
+            let w2 = history_h2(db, &reqs).await;
+            return X::L(vec![X::bool(w1.is_ok()), X::bool(w2.is_ok())]);
+        }
+        let w1 = match w1 {
+            Ok(w) => w,
+            Err((i, e)) => return fail(i, e),
         };
-        let mut w1 = Vec::new();
-        for (i, r) in reqs.iter().enumerate() {
-            match h1.exchange(&resolve(r)).await {
-                Ok(w) => w1.push(w),
-                Err(e) => return fail(i, format!("h1: {e}")),
-            }
+        match history_h2(db, &reqs).await {
+            Ok(w2) => X::L(w1.iter().zip(w2.iter()).map(|(a, b)| X::L(vec![x_wire(a), x_wire(b)])).collect()),
+            Err((i, e)) => fail(i, e),
         }
-        if let Err(e) = h1.sentinel().await {
-            return fail(reqs.len(), format!("h1 framing: {e}"));
-        }
-        let mut h2 = match H2::open(db).await {
-            Ok(c) => c,
-            Err(e) => return fail(0, format!("h2 open: {e}")),
-        };
-        let mut out = Vec::new();
-        for (i, r) in reqs.iter().enumerate() {
-            match h2.exchange(&resolve(r)).await {
-                Ok(w) => out.push(X::L(vec![x_wire(&w1[i]), x_wire(&w)])),
-                Err(e) => return fail(i, format!("h2: {e}")),
-            }
-        }
-        if let Err(e) = h2.sentinel().await {
-            return fail(reqs.len(), format!("h2 framing: {e}"));
-        }
-        X::L(out)
     });
     cleanup(&ba);
     cleanup(&bb);
@@ -709,7 +714,8 @@ fn alone(x: &X, use_h2: bool) -> X {
 pub fn dispatch(comp: &str, x: &X) -> Option<X> {
     Some(match comp {
         "proto.l4" => l4(x),
-        "proto.pair" => pair(x),
+        "proto.pair" => pair(x, false),
+        "proto.answered" => pair(x, true),
         "proto.burst" => burst(x, true),
         "proto.burst1" => burst(x, false),
         "proto.alone" => alone(x, true),
